@@ -174,6 +174,8 @@ def run(tier, seed):
     if not ok_obl:
         ck.violation("proof obligations of C11 no longer check: " + str(ck.cov.get("obligation_failure", ""))[:300],
                      {"kind": "proof", "theorem_file": PROP, "detail": ck.cov.get("obligation_failure")}, no_input=True)
+    if tier == "thorough":
+        ck.coqchk(["GV.Properties.C11"])
     ck.cov["comparison"] = total
     ck.cov["exhaustive"] = False
     return ck.finish(
